@@ -402,3 +402,43 @@ def h_globalized(E, shape):
     for c in ctx["spec"]["calls"][ncalls:]:
         E.prove(common.in_box(c[1], lb, ub), "C05.evaluation_point_in_box", info=dict(kind=c[0]))
     E.prove(common.in_box(items(step.iterate.x), lb, ub), "C05.trial_iterate_in_box")
+
+
+def h_sequence(E, shape):
+    """C14 beyond the first step: two consecutive Newton steps of one method object (first from the
+    base point, then from an arbitrary in-box iterate, so that the active set may change in
+    between).  Each returned step solves the reference system of its variant: Simplified / ActiveSet
+    keep the matrix of the base point (ActiveSet with the active set of the current iterate), Full
+    takes matrix and active set at the current iterate."""
+    N = boot.mod("newton")
+    P = boot.mod("params")
+    nt = shape.get("newton", "ActiveSet")
+    ctx = setup(E, dict(shape, newton=nt))
+    n, m = ctx["n"], ctx["m"]
+    Iterate = boot.mod("iterate").Iterate
+    method = N.newton_method(ctx["user"], ctx["params"], ctx["orig"], ctx["dt"], ctx["rho"])
+    lb, ub = ctx["spec"]["xl"], ctx["spec"]["xu"]
+    first = method.step(ctx["orig"])
+    x = []
+    for j in range(n):
+        v = E.real(f"x{j}")
+        E.assume(land(lb[j] <= v, v <= ub[j]))
+        x.append(v)
+    y = [E.real(f"y{i}") for i in range(m)]
+    cur = Iterate(ctx["user"], ctx["params"], arr(x), arr(y))
+    pts = [(ctx["xh"], ctx["yh"], first), (x, y, method.step(cur))]
+    for k, (px, py, step) in enumerate(pts):
+        mask = [bool(v) for v in items(step.active_set)]
+        sv = items(step.raw_dx) + items(step.dy)
+        if nt == "Full" and k == 1:
+            # matrix at the current iterate: the reference with the current point as its base for the
+            # derivative (the flow's base point stays x_hat in the residual)
+            F, _ = reference_system(ctx, px, py, mask)
+            sub = dict(ctx, xh=px, yh=py)
+            _, D = reference_system(sub, px, py, mask)
+        else:
+            F, D = reference_system(ctx, px, py, mask)
+        ok = True
+        for r in range(n + m):
+            ok = land(ok, sum((D[r][c] * sv[c] for c in range(n + m)), 0.0) == F[r])
+        E.prove(ok, "C14.consecutive_steps_solve_their_reference_systems", info=dict(step=k, newton=nt))
